@@ -162,6 +162,9 @@ def cases(tier, seed):
                                                        "runner_df")
                                          and (ii // len(DESCS) + ei) % 2 == 0),
                        "dictcases": j % 3 == 1,
+                       # swept values handed over as one-shot generators
+                       "valgen": core.pick([ik, ispec, dname, vni, vdi, entry,
+                                            "vg"], 4) == 0,
                        "sigrev": (ii // len(DESCS) + ei + si) % 3 == 0,
                        "strat": strats[(j + ei) % 4],
                        "types": "ifs"[j % 3] + "sfi"[(j // 2) % 3]
@@ -243,6 +246,19 @@ def check_case(case):
         resources=res or None, attrs=attrs or None))
     to_df = entry in ("to_df", "runner_df")
     last = None
+
+    def subgrid():
+        # the sub-grid next to a case list, for the Runner methods: a mapping
+        # or a tuple of pairs
+        if not combos:
+            return ()
+        if core.pick([case["spec"], case["desc"], case["entry"], "sg"], 2):
+            return combos
+        return tuple(combos.items())
+
+    if case.get("valgen") and combos and not case.get("prev_override") \
+            and not (cs is not None and case.get("dictcases")):
+        combos = {a: (x for x in v) for a, v in combos.items()}
     try:
         with xfn.CallLog() as log:
             if entry in ("to_ds", "to_df"):
@@ -289,9 +305,8 @@ def check_case(case):
                             # the opposite order)
                             runner.run_cases([tuple(cs[0][::-1])],
                                              fn_args=list(cnames)[::-1],
-                                             constants={"k": 5}, combos=(
-                                                 tuple(combos.items())
-                                                 if combos else ()), **pk)
+                                             constants={"k": 5},
+                                             combos=subgrid(), **pk)
                 if entry == "runner_df":
                     kw["to_df"] = True
                 if entry == "label-harvester":
@@ -299,8 +314,8 @@ def check_case(case):
                         far.harvest_combos(combos, **kw)
                     else:
                         far.harvest_cases(cs, fn_args=None if sigrev
-                                          else list(cnames), combos=(
-                            tuple(combos.items()) if combos else ()), **kw)
+                                          else list(cnames),
+                                          combos=subgrid(), **kw)
                     out = far.full_ds
                     last = far.last_ds
                 else:
@@ -310,8 +325,7 @@ def check_case(case):
                         out = runner.run_cases(cs, fn_args=None if (
                             sigrev or case.get("prev_override"))
                                                else list(cnames),
-                                               combos=(tuple(combos.items())
-                                                       if combos else ()), **kw)
+                                               combos=subgrid(), **kw)
                     last = runner._last_ds if not to_df else None
                     if not to_df and last is not out:
                         vio.append((key("last_ds"),
